@@ -109,7 +109,11 @@ class SerializedFileBufferedCollection(FileBufferedCollection):
                     # multiple collections pointing to the same file, etc).
                     return
                 else:
-                    blob = self._encode(self._data)
+                    # The buffer entry is shared by all instances pointing to
+                    # this file and holds every write made through any of
+                    # them; this instance's own data may be stale (or may
+                    # never have been loaded at all).
+                    blob = cached_data["contents"]
 
                     # If the contents have not been changed since the initial read,
                     # we don't need to rewrite it.
